@@ -3,6 +3,7 @@ LOCKSET (all pool tables under _poolLock, 'Unsafe' helpers only called with it),
 table in one critical section; submit defers iff the flag is set; completion clears the flag, promotes deferred->pending and dispatches in one critical
 section), UNREGISTER (registration for completion in the same critical section as the outstanding test; wait outside the lock)."""
 import re
+from msa import guards as G
 from msa import pair as P
 from msa import ast as A
 from msa import cfg as C
@@ -133,7 +134,11 @@ def run(res, tier):
     sel = None
     for n in f.walk():
         if n['k'] == 'ConditionalOperator':
-            c, a, b = A.strip_casts(n['ch'][0]), A.strip_casts(n['ch'][1]), A.strip_casts(n['ch'][2])
+            c, pol = A.bool_polarity(n['ch'][0], True)
+            c = G.local_init(f, c)
+            a, b = A.strip_casts(n['ch'][1]), A.strip_casts(n['ch'][2])
+            if not pol:
+                a, b = b, a
             if a.get('n') == '_deferredMessages' and b.get('n') == '_pendingMessages' and c['k'] == 'UnaryOperator' and c.get('op') == '*':
                 sel = (n, A.strip_casts(c['ch'][0]).get('d'))
     flagsrc = False
@@ -148,9 +153,11 @@ def run(res, tier):
     disp = P.calls(f, r'::DispatchPendingMessagesUnsafe$')
     okd = False
     for d in disp:
-        gs = [(f.nodes[c], t) for (c, t) in C.guards_of_block(f, P.pos_of(f, d)[0])]
-        nothandled = any(A.strip_casts(cn)['k'] == 'UnaryOperator' and A.strip_casts(cn).get('op') == '*' and not t for (cn, t) in [(P.strip_not(c, t)) for (c, t) in gs])
-        okd = nothandled
+        okd = False
+        for (cn, t) in G.atoms_at(f, d):
+            cn = G.local_init(f, cn)
+            if cn['k'] == 'UnaryOperator' and cn.get('op') == '*' and not t and sel and A.strip_casts(cn['ch'][0]).get('d') == sel[1]:
+                okd = True
     res.ob('HANDOFF-ATOMIC', f.where(), 'SendMessageToThreadPool dispatches only when the client is not being handled', okd, function=f.q, key='HANDOFF-ATOMIC|%s|dispatch-guard' % f.q,
            message='SendMessageToThreadPool can dispatch while the client is being handled')
     f = fx.fn1(TP + '::ThreadFinishedProcessingClientMessages')
@@ -167,11 +174,22 @@ def run(res, tier):
            how='clear at line %s, SwapContents at line %s, dispatch at line %s' % (clr[0].get('l') if clr else '?', swap[0].get('l') if swap else '?', disp[0].get('l') if disp else '?'),
            key='HANDOFF-ATOMIC|%s|completion' % f.q,
            message='ThreadFinishedProcessingClientMessages no longer clears the being-handled flag and promotes the deferred Messages before dispatching, inside one critical section: deferred Messages are lost, reordered or handled concurrently')
-    wake = [c for c in f.walk() if c['k'] == 'CXXMemberCallExpr' and (c.get('q') or '').endswith('WaitCondition::Notify')]
+    # the wake-up may sit in this function or in a private helper it calls (under the same guard: LOCKSET covers the helper's entry lock set)
+    scope, work = [f], [f]
+    while work:
+        g0 = work.pop()
+        for c in g0.walk():
+            if c.is_call() and (c.get('q') or '').startswith(TP + '::'):
+                for h in fx.by_q.get(c.get('q'), []) if hasattr(fx, 'by_q') else [x for x in fx.funcs.values() if x.q == c.get('q') and x.full]:
+                    if h.full and h not in scope:
+                        scope.append(h)
+                        work.append(h)
+    wake = [(g0, c) for g0 in scope for c in g0.walk() if c['k'] == 'CXXMemberCallExpr' and (c.get('q') or '').endswith('WaitCondition::Notify')]
     okw = bool(wake)
-    for w in wake:
-        gs = [P.strip_not(f.nodes[c], t) for (c, t) in C.guards_of_block(f, P.pos_of(f, w)[0])]
-        okw = okw and any(n.is_call() and (n.get('q') or '').endswith('::DoesClientHaveMessagesOutstandingUnsafe') and not pol for (n, pol) in gs)
+    for (g0, w) in wake:
+        okw = okw and any(n.is_call() and (n.get('q') or '').endswith('::DoesClientHaveMessagesOutstandingUnsafe') and not pol for (n, pol) in G.atoms_at(g0, w))
+        if g0 is not f:
+            okw = okw and LOCK in (cl.entry.get(g0.id) or ())
     res.ob('HANDOFF-ATOMIC', f.where(), 'the unregistering client is woken only when it has no Messages outstanding', okw, function=f.q, key='HANDOFF-ATOMIC|%s|wake' % f.q,
            message='the completion path wakes UnregisterClient while Messages of that client are still outstanding')
     # ---------------------------------------------------------------------------------- UNREGISTER
